@@ -627,6 +627,12 @@ impl DealerSocket {
       full_message_parts.len()
     );
     loop {
+      // Create the wait futures BEFORE looking at is_running() and at the queue: a `Notified`
+      // receives `notify_waiters()` from the moment it is created. Created only after the
+      // checks (and after the await on the queue lock), the wake-up sent by `Command::Stop`
+      // could fall in between and this send() would wait forever on a closed socket.
+      let queue_activity = self.outgoing_queue_activity_notifier.notified();
+      let peer_availability = self.peer_availability_notifier.notified();
       if !self.core.is_running() {
         return Err(ZmqError::InvalidState(
           "Socket is closing while trying to queue".into(),
@@ -643,8 +649,7 @@ impl DealerSocket {
       match global_sndtimeo {
         Some(duration) if duration.is_zero() => return Err(ZmqError::ResourceLimitReached),
         Some(duration) => {
-          let queue_wait_fut = self.outgoing_queue_activity_notifier.notified();
-          if tokio_timeout(duration, queue_wait_fut).await.is_err() {
+          if tokio_timeout(duration, queue_activity).await.is_err() {
             return Err(ZmqError::Timeout);
           }
         }
@@ -654,8 +659,8 @@ impl DealerSocket {
             _ = async { if !self.core.is_running() { futures::future::pending().await } else { futures::future::pending().await } } => {
               return Err(ZmqError::InvalidState("Socket is closing while waiting for queue space".into()));
             }
-            _ = self.outgoing_queue_activity_notifier.notified() => {}
-            _ = self.peer_availability_notifier.notified() => {}
+            _ = queue_activity => {}
+            _ = peer_availability => {}
           }
         }
       }
